@@ -248,7 +248,18 @@ impl BuiltinProp {
                 Term::Func(op.to_string(), args)
             }
         };
-        let f = gen_fun(s, &mut sc);
+        // 1 case in 8: the other operand is a variable that is also an argument of the function ($X = $X * 1,
+        // $X + 0 = $X, $X = $X + 1): the value may well be equal to the variable's binding
+        let own_arg: Option<Term> = if chance(s, 1, 8) { let v = small_num(s); let l = s.draw(2); Some(sc.bind(s, v, l)) } else { None };
+        let f = match &own_arg {
+            Some(var) => {
+                let (op, k) = pick(s, &[("multiply", 1i64), ("add", 0), ("subtract", 0), ("divide", 1), ("add", 1), ("multiply", 2)]);
+                let mut args = vec![var.clone(), Term::Int(k)];
+                if (op == "add" || op == "multiply") && chance(s, 1, 2) { args.reverse(); }
+                Term::Func(op.to_string(), args)
+            }
+            None => gen_fun(s, &mut sc),
+        };
         // evaluate F with the reference to be able to build "equal value" partners
         let fval: Option<Term> = {
             let mut probe = Scn { goals: sc.goals.clone(), vars: sc.vars.clone(), uses_copy: sc.uses_copy };
@@ -261,8 +272,9 @@ impl BuiltinProp {
         };
         let fval = match fval { Some(v) => v, None => return CaseResult::Discard("function has no value".into()) };
         let other_val = match &fval { Term::Int(i) => Term::Int(i + 1), Term::Float(x) => Term::Float(x + 0.5), Term::Atom(a) => Term::Atom(format!("{} x", a)), t => t.clone() };
-        let pk = s.draw(10);
+        let pk = if own_arg.is_some() { 10 } else { s.draw(10) };
         let partner = match pk {
+            10 => own_arg.clone().unwrap(),
             0 => Term::Var(sc.fresh()),
             1 => { let l = s.draw(2); sc.bind(s, fval.clone(), l) }
             2 => { let l = s.draw(2); sc.bind(s, other_val.clone(), l) }
@@ -277,7 +289,7 @@ impl BuiltinProp {
                               Term::Atom(a) => Term::Func("join".into(), vec![Term::Atom(a.clone())]), t => t.clone() } }
             _ => gen_fun(s, &mut sc),
         };
-        rep.class(&format!("partner:{}", ["unbound-var", "var=value", "var=other", "equal-const", "other-const", "atom", "list", "complex", "equal-function", "random-function"][pk as usize]));
+        rep.class(&format!("partner:{}", ["unbound-var", "var=value", "var=other", "equal-const", "other-const", "atom", "list", "complex", "equal-function", "random-function", "own-argument-variable"][pk as usize]));
         let mut results = vec![];
         for fun_left in [true, false] {
             let mut sc2 = Scn { goals: sc.goals.clone(), vars: sc.vars.clone(), uses_copy: sc.uses_copy };
@@ -323,7 +335,14 @@ impl BuiltinProp {
         let mut chain = false;
         let mut mk = |s: &mut dyn Src, sc: &mut Scn, t: &Term| -> Term {
             match t {
-                Term::Var(_) => Term::Var(sc.fresh()),
+                // an unbound operand: a fresh variable, or a variable aliased (in either direction, so also "older bound
+                // to newer") to another variable that is still unbound
+                Term::Var(_) => match s.draw(3) {
+                    0 => Term::Var(sc.fresh()),
+                    // (variables local to the rule body - not in its head - so nothing has sized the binding vector for them)
+                    1 => { let n = sc.goals.len(); let (a, b) = (format!("$La{}", n), format!("$Lb{}", n)); sc.goals.push(Goal::Unify(Term::Var(a.clone()), Term::Var(b))); Term::Var(a) }
+                    _ => { let n = sc.goals.len(); let (a, b) = (format!("$La{}", n), format!("$Lb{}", n)); sc.goals.push(Goal::Unify(Term::Var(b.clone()), Term::Var(a))); Term::Var(b) }
+                },
                 Term::Anon => Term::Anon,
                 _ => { let (x, b) = sc.present(s, t.clone()); chain |= b; x }
             }
@@ -585,6 +604,8 @@ impl BuiltinProp {
                     6 => Term::atom("*"),
                     _ => sc.bind(s, Term::atom(name), 0),
                 };
+                // the pattern (exact name or prefix*) may also arrive through a bound variable
+                let fa = if matches!(fa, Term::Atom(_)) && chance(s, 1, 3) { let l = s.draw(2); sc.bind(s, fa, l) } else { fa };
                 let mut args = vec![tt, fa];
                 if chance(s, 2, 3) { args.push(match s.draw(3) { 0 => Term::Int(ar as i64), 1 => Term::Int(ar as i64 + 1), _ => Term::Var(sc.fresh()) }); }
                 sc.goals.push(Goal::BuiltIn("functor".into(), args));
